@@ -277,7 +277,11 @@ func doWorker(e Engine, property, tier string, seed uint64, cfg map[string]strin
 		res.SimTime += r.SimTime
 		if r.NonTrivial() {
 			res.NonTrivial++
-			hashes[r.AbsHash()] = true
+			if len(hashes) < 250000 { // memory bound per worker; beyond it the distinct count is a lower bound
+				hashes[r.AbsHash()] = true
+			} else {
+				res.Counters["distinct-count-capped-runs"]++
+			}
 		}
 		if len(res.Samples) < 2 && r.NonTrivial() && len(r.Trace) > 0 {
 			tr := r.Trace
@@ -292,6 +296,13 @@ func doWorker(e Engine, property, tier string, seed uint64, cfg map[string]strin
 				vc = v.Class
 			}
 			fmt.Fprintf(dump, "%d %016x %d %016x %s\n", i, r.LogHash(), len(r.Rec), r.AbsHash(), vc)
+			if os.Getenv("VERIF_DUMP_RUN") == fmt.Sprint(i) { // selftest debugging: the labelled choices of one run
+				var sb strings.Builder
+				for _, c := range r.Rec {
+					fmt.Fprintf(&sb, "%s %d/%d\n", c.L, c.V, c.N)
+				}
+				os.WriteFile(fmt.Sprintf("%s.rec%d", *fDump, i), []byte(sb.String()), 0o644)
+			}
 		}
 		if v != nil && !seenClass[v.Class] {
 			seenClass[v.Class] = true
